@@ -1,48 +1,54 @@
 #!/venv/bin/python
-"""Apply a patch to /repo, run checks, and always restore /repo.
+"""Run checks against a patched SCRATCH worktree of /repo (never touches /repo itself).
 
-usage: tools/try_patch.py [-R] <patch.diff> <ID>[,<ID>...] [quick|thorough] [extra env K=V ...]
+usage: tools/try_patch.py [-R] <patch.diff> <ID>[,<ID>...] [quick|thorough] [K=V ...]
 """
-import os, subprocess, sys
+import os, shutil, subprocess, sys, tempfile
+
+def sh(cmd, **kw):
+    return subprocess.run(cmd, capture_output=True, text=True, **kw)
 
 def main():
     a = sys.argv[1:]
     rev = False
     if a[0] == "-R":
         rev = True; a = a[1:]
-    patch, ids = a[0], a[1].split(",")
+    patch, ids = os.path.abspath(a[0]), a[1].split(",")
     tier = a[2] if len(a) > 2 and "=" not in a[2] else "quick"
     env = dict(os.environ)
     for kv in a[2:]:
         if "=" in kv:
             k, v = kv.split("=", 1); env[k] = v
-    st = subprocess.run(["git", "-C", "/repo", "status", "--porcelain"], capture_output=True, text=True).stdout.strip()
-    if st:
-        print("refusing: /repo is dirty:\n" + st); return 2
-    cmd = ["git", "-C", "/repo", "apply"] + (["-R"] if rev else []) + [os.path.abspath(patch)]
-    r = subprocess.run(cmd, capture_output=True, text=True)
+    wt = tempfile.mkdtemp(prefix="bbv-try-wt-"); os.rmdir(wt)
+    out = tempfile.mkdtemp(prefix="bbv-try-out-")
+    r = sh(["git", "-C", "/repo", "worktree", "add", "-q", "--detach", wt, "HEAD"])
     if r.returncode:
-        cmd.insert(4, "--3way")
-        r = subprocess.run(cmd, capture_output=True, text=True)
-        if r.returncode:
-            subprocess.run(["git", "-C", "/repo", "reset", "-q", "--hard"])
-            print("patch does not apply:", r.stderr); return 2
-        subprocess.run(["git", "-C", "/repo", "reset", "-q"])
-        print("(applied with --3way)")
+        print(r.stderr); return 2
     rc = {}
     try:
+        cmd = ["git", "-C", wt, "apply"] + (["-R"] if rev else []) + [patch]
+        r = sh(cmd)
+        if r.returncode:
+            cmd.insert(4, "--3way")
+            r = sh(cmd)
+            if r.returncode:
+                print("patch does not apply:", r.stderr); return 2
+            sh(["git", "-C", wt, "reset", "-q"])
+            print("(applied with --3way)")
+        env.update(BBV_REPO=wt, BBV_OUT=out)
         for i in ids:
-            p = subprocess.run(["/verif/check", i, tier], env=env, capture_output=True, text=True)
+            p = sh(["/verif/check", i, tier], env=env)
             rc[i] = p.returncode
-            out = p.stdout.strip().splitlines()
+            lines = p.stdout.strip().splitlines()
             print("== %s exit=%d" % (i, p.returncode))
-            for l in out[:12] + (["..."] if len(out) > 16 else []) + out[-4:] if len(out) > 16 else out:
+            show = lines if len(lines) <= 16 else lines[:12] + ["..."] + lines[-3:]
+            for l in show:
                 print("   " + l[:300])
             if p.stderr.strip():
                 print("   stderr:", p.stderr.strip()[-500:])
     finally:
-        subprocess.run(["git", "-C", "/repo", "reset", "-q", "--hard"])
-        subprocess.run(["git", "-C", "/repo", "clean", "-fdq"])
+        sh(["git", "-C", "/repo", "worktree", "remove", "--force", wt])
+        shutil.rmtree(wt, ignore_errors=True); shutil.rmtree(out, ignore_errors=True)
     print("RESULT", patch, rc)
     return 0
 
